@@ -465,6 +465,8 @@ def bounded(rep, tier):
 
 
 def check(rep, tier):
+    from vlib import statecensus
+    statecensus.obligations(rep, 'C02', 'parser')
     rep.dropped = 'grammar actions read with ast.parse (the @_ decorators give the rules); the SLY driver and Lexer.tokenize are not symbolically executed here (C05 covers the driver)'
     rep.assume('type contracts of right-hand side symbols as written in value_for()', 'node constructors called by actions are executed symbolically when within reach (their raises are attributed to the action)',
                'termination is not proved')
